@@ -550,15 +550,16 @@ def copyInstWith (dc : Copier) (cd : ClassDesc) (h : Heap) (o : Obj) :
             | none => none
             | some (h4, ss) => some (h4, slotUpdate init ss)
   else
-    -- copied = self.__class__(span=deepcopy(span)); copied.__dict__.update({k: deepcopy(v) …})
+    -- copied = self.__class__(span=deepcopy(span)); copied.__dict__.update(copy.deepcopy(self.__dict__))
     match dc h [] ((o.slots.lookup "span").getD (.imm .none)) with
     | none => none
     | some (h1, _, sp) =>
       match construct cd h1 sp (.imm .none) with
       | (h2, init) =>
-        match copyEachWith dc h2 o.slots with
+        -- ONE deep copy (one memo) of the whole `__dict__`: an object stored under two attributes stays one object
+        match copySlotsWith dc h2 [] o.slots with
         | none => none
-        | some (h3, ss) => some (h3, slotUpdate init ss)
+        | some (h3, _, ss) => some (h3, slotUpdate init ss)
 
 /-- `copy.deepcopy(v, memo)`.  Instances define `__deepcopy__` = `self.copy()` (the memo is not passed on).
     `none` = out of fuel (cyclic heap) or dangling reference. -/
